@@ -375,15 +375,25 @@ class AssessStep(_HandlerBase):
 
 @contract("genjax.core:Generate.__call__", ["C02", "C10"])
 class GenerateStep(_HandlerBase):
-    cases = ["args_only", "with_kwargs", "kwargs_None"]
+    cases = ["args_only", "with_kwargs", "kwargs_None", "args_only:constraint_is_a_kept_trace_of_the_callee"]
 
     def call(self, case):
-        self.site(case)
+        kept = case.endswith("kept_trace_of_the_callee")
+        self.site(case.split(":")[0])
         self.score0, self.w0 = real("score0"), real("weight0")
         InC = z3.Function(engine().fresh_name("In_choice_map"), Atom, z3.BoolSort())
         CV = z3.Function(engine().fresh_name("ChoiceAt"), Atom, V)
         self.InC, self.CV = InC, CV
-        self.cm = SymDict("choice_map", init_has=lambda k: InC(k), init_get=lambda k: Sym(CV(k)))
+        if kept:
+            # the constraint at the address is a TRACE of this very callee, recorded under OTHER arguments (a sub-trace
+            # carried over from an earlier run): it stands for its choices; the site must still be generated - scored -
+            # under the arguments of THIS call
+            a_old, s_old = fresh("args_of_the_kept_trace", V), fresh("score_of_the_kept_trace", z3.RealSort())
+            self.kept_tr = AbsTrace(self.g, Sym(a_old), Sym(CV(self.addr.e)), Sym(self.g.R(a_old, CV(self.addr.e))), Sym(s_old))
+            engine().assume(InC(self.addr.e))
+            self.cm = SymDict("choice_map", init_has=lambda k: InC(k), init_get=lambda k: self.kept_tr)
+        else:
+            self.cm = SymDict("choice_map", init_has=lambda k: InC(k), init_get=lambda k: Sym(CV(k)))
         self.tm = self.abstract_trace_map()
         self.h = mk_handler(core.Generate, choice_map=self.cm, score=self.score0, weight=self.w0, trace_map=self.tm, parent_fn=self.parent)
         return self.real(self.fn, self.h, self.addr, self.g, self.args, self.kwargs)
